@@ -374,4 +374,52 @@ example :
       { inP := [98], inV := [49], outP := some [99], outV := some [49], flavor := sGeneric }]).inverse.isNone = true := by
   decide
 
+/-! ## the server side: `DistribServer.getTaggedProductList` / `getTaggedProductInfo` and their cache -/
+
+/-- **The answers of a server object do not depend on what it was asked before.**  Whatever the files on the server
+and whatever the history of requests (any tags, any flavors, in any order, with repetitions), every answer is the
+answer a fresh server object gives: the cache, keyed by (tag, flavor), only saves work. -/
+theorem C18_server_history_independent (files : List (Str × Str)) (history : List Req) (r : Req) :
+    (serve1 false files (cacheAfter false files [] history) r).1 = (serve1 false files [] r).1 := by
+  rw [(serve1_spec files _ r (cacheAfter_ok files history [] (cacheOk_nil files))).1, serve1_fresh]
+
+/-- the whole sequence of answers is the request-by-request sequence of fresh answers -/
+theorem C18_server_answers (files : List (Str × Str)) (reqs : List Req) :
+    serve false files [] reqs = reqs.map fun r => (serve1 false files [] r).1 := by
+  rw [serve_eq_fresh files reqs [] (cacheOk_nil files)]
+  apply List.map_congr_left
+  intro r _
+  rw [serve1_fresh]
+
+/-- **A tagged release read back through the server is the per-flavor filter of the written list**, after any
+history: the request for flavor `F` is answered with the entries of flavor `F` or `generic` (as `F`), in sorted order. -/
+theorem C18_server_flavor_filter (t : TagList) (fa : Option Str) (F : Str) (comments : List Str) (history : List Req)
+    (htag : ∀ c ∈ t.tag, c ≠ 10 ∧ c ≠ 13)
+    (hc : ∀ l ∈ comments, isBlankOrComment l = true ∧ ∀ c ∈ l, c ≠ 10 ∧ c ≠ 13)
+    (hnd : t.products.Nodup)
+    (hok : ∀ p ∈ t.products, TagEntryOk fa p ((assocGet t.info p).getD [])) :
+    (serve1 false [(t.tag, t.write fa comments)] (cacheAfter false [(t.tag, t.write fa comments)] [] history)
+        (Req.list t.tag (some F))).1 =
+      Ans.products ((sortStrs t.products).filterMap fun p => keepEntry fa F p ((assocGet t.info p).getD [])) := by
+  rw [C18_server_history_independent, serve1_fresh]
+  obtain ⟨r, hr, hg⟩ := C18_taglist_roundtrip t fa F comments htag hc hnd hok
+  simp only [freshAnswer, Req.tag, Req.flavor, parseList, assocGet, if_true, hr, answerFrom, hg]
+
+/-- **The flavor in the cache key is necessary (negation witness for a cache keyed by the tag alone):** a release with
+a Linux and a Linux64 entry; asked first for Linux64 and then for Linux, the tag-keyed server answers the second
+request with the Linux64 list, while the (tag, flavor)-keyed one answers it like a fresh server. -/
+theorem C18_server_tag_only_witness :
+    let t := ((TagList.empty (Str.ofString "current") (some (Str.ofString "Linux"))).addProduct (Str.ofString "afw")
+      (Str.ofString "1.0") none []).addProduct (Str.ofString "boost") (Str.ofString "2.0") (some (Str.ofString "Linux64")) []
+    let files := [(Str.ofString "current", t.write none [])]
+    let reqs := [Req.list (Str.ofString "current") (some (Str.ofString "Linux64")),
+                 Req.list (Str.ofString "current") (some (Str.ofString "Linux"))]
+    serve false files [] reqs =
+        [Ans.products [[Str.ofString "boost", Str.ofString "Linux64", Str.ofString "2.0"]],
+         Ans.products [[Str.ofString "afw", Str.ofString "Linux", Str.ofString "1.0"]]] ∧
+      serve true files [] reqs =
+        [Ans.products [[Str.ofString "boost", Str.ofString "Linux64", Str.ofString "2.0"]],
+         Ans.products [[Str.ofString "boost", Str.ofString "Linux64", Str.ofString "2.0"]]] := by
+  decide
+
 end EupsModel.C18
